@@ -17,6 +17,7 @@
 From Coq Require Import List NArith Bool Arith.
 Import ListNotations.
 From VDrv Require Import Queue Handoff QueueSafety QueueInv QueueLive QueueRank QueueTerm QueueStop.
+From VDrv Require MultiReq MultiReqProofs MultiReqCheck.
 
 (** ** Safety (both configurations) *)
 
@@ -261,3 +262,92 @@ Example orig_deadlocks :
   | None => False
   end.
 Proof. vm_compute. repeat split; reflexivity. Qed.
+
+(** ** Commands with several outstanding requests (unified multi-GPU kernel launch)
+    [coq/drv/MultiReq.v]: one queue; a command [c] is started by one pass of
+    processNewCommandFromCmdQueue, which sends [c_n c >= 1] requests (one per member
+    GPU of the unified device) and appends them to the command's request list;
+    [EReply k] = the answer to the k-th request still in that list is processed by
+    processLaunchKernelReturn - the replies of one command arrive in any order and
+    in different ticks, interleaved with any number of attempts [EStart] to start
+    the next command.  Disabled events are skipped by [run], so EVERY list of events
+    is a schedule.  Ghost: [sent] logs (position of the command in the submitted
+    list, member), [nstarted]/[ndone] count starts and Dequeues.
+
+    [multi_request_fifo]: for every schedule the queue is the submitted list minus
+    its first [ndone] commands; the commands started are those done plus the running
+    head - so each command is started once, in order; the requests sent are EXACTLY
+    one per (command, member) of the started commands, in order ([expected_sent]);
+    the queue is marked running precisely while a request of the head is outstanding. *)
+Theorem multi_request_fifo : forall q0 evs, MultiReqProofs.all_pos q0 ->
+  let s := MultiReq.run MultiReq.LastReply (MultiReq.init q0) evs in
+  MultiReq.queue s = skipn (MultiReq.ndone s) q0 /\ (MultiReq.ndone s <= length q0)%nat
+  /\ MultiReq.nstarted s = (MultiReq.ndone s + (if MultiReq.running s then 1 else 0))%nat
+  /\ MultiReq.sent s = MultiReq.expected_sent q0 (MultiReq.nstarted s)
+  /\ (MultiReq.running s = true <-> MultiReq.reqs s <> [])
+  /\ (MultiReq.running s = true -> MultiReq.queue s <> []).
+Proof. exact MultiReqProofs.multi_fifo. Qed.
+Print Assumptions multi_request_fifo.
+
+(** [multi_request_one_at_a_time]: in any reachable state, while a request of the head
+    command is outstanding the only enabled events are replies - nothing is started,
+    nothing is sent (no request of a later command, no second copy of the same
+    command); a start leaves the queue as it is; a reply removes the command from the
+    queue exactly when it was the last one, and until then the queue stays running. *)
+Theorem multi_request_one_at_a_time : forall q0 evs e s', MultiReqProofs.all_pos q0 ->
+  let s := MultiReq.run MultiReq.LastReply (MultiReq.init q0) evs in
+  MultiReq.step MultiReq.LastReply s e = Some s' ->
+  (MultiReq.reqs s <> [] ->
+     MultiReq.sent s' = MultiReq.sent s /\ MultiReq.nstarted s' = MultiReq.nstarted s /\ exists k, e = MultiReq.EReply k)
+  /\ (e = MultiReq.EStart ->
+     MultiReq.reqs s = [] /\ MultiReq.queue s' = MultiReq.queue s /\ MultiReq.ndone s' = MultiReq.ndone s)
+  /\ (forall k, e = MultiReq.EReply k ->
+       (MultiReq.reqs s' = [] ->
+          MultiReq.queue s' = tl (MultiReq.queue s) /\ MultiReq.ndone s' = S (MultiReq.ndone s) /\ MultiReq.running s' = false)
+       /\ (MultiReq.reqs s' <> [] ->
+          MultiReq.queue s' = MultiReq.queue s /\ MultiReq.ndone s' = MultiReq.ndone s /\ MultiReq.running s' = true)).
+Proof. exact MultiReqProofs.multi_step. Qed.
+Print Assumptions multi_request_one_at_a_time.
+
+(** [multi_request_drained]: whenever a schedule has emptied the queue, every command
+    was started once and the requests sent are exactly one per (command, member). *)
+Theorem multi_request_drained : forall q0 evs, MultiReqProofs.all_pos q0 ->
+  let s := MultiReq.run MultiReq.LastReply (MultiReq.init q0) evs in
+  MultiReq.queue s = [] ->
+  MultiReq.ndone s = length q0 /\ MultiReq.nstarted s = length q0 /\ MultiReq.running s = false
+  /\ MultiReq.reqs s = [] /\ MultiReq.sent s = MultiReq.expected_sent q0 (length q0).
+Proof. exact MultiReqCheck.multi_drained. Qed.
+Print Assumptions multi_request_drained.
+
+(** [multi_request_terminates]: [measure] = outstanding requests + (requests + 1) of
+    every command not yet started; it drops by exactly one on every enabled event, so
+    no schedule has more than [measure (init q0)] effective events and a queue that
+    is not empty always has an enabled event left (a start or a reply). *)
+Theorem multi_request_terminates : forall q0 evs e s', MultiReqProofs.all_pos q0 ->
+  let s := MultiReq.run MultiReq.LastReply (MultiReq.init q0) evs in
+  MultiReq.step MultiReq.LastReply s e = Some s' -> S (MultiReqCheck.measure s') = MultiReqCheck.measure s.
+Proof. exact MultiReqCheck.multi_measure_decreases. Qed.
+Print Assumptions multi_request_terminates.
+
+(** The rule "the queue is idle again after the FIRST reply" (IsRunning cleared next to
+    RemoveReq) is refuted: two members, the first one answers, the next pass over the
+    queue starts the same command again - both members get the kernel a second time
+    although nothing was dequeued. *)
+Theorem multi_request_idle_on_first_reply_refuted : exists q0 evs, MultiReqProofs.all_pos q0 /\
+  let s := MultiReq.run MultiReq.FirstReply (MultiReq.init q0) evs in
+  MultiReq.sent s <> MultiReq.expected_sent q0 (length q0) /\ (MultiReq.nstarted s > MultiReq.ndone s + 1)%nat
+  /\ (forall x, ~ (In x (MultiReq.sent s) /\ (fst x >= 1)%nat))
+  /\ ~ NoDup (MultiReq.sent s) /\ MultiReq.nstarted s = 2%nat /\ MultiReq.ndone s = 0%nat.
+Proof. exact MultiReqProofs.multi_first_reply_refuted. Qed.
+Print Assumptions multi_request_idle_on_first_reply_refuted.
+
+(** Non-vacuity: three commands with 3, 1 and 2 requests, replies out of order, idle
+    start attempts in between: all complete, six requests, one per (command, member). *)
+Example multi_request_example :
+  MultiReqProofs.all_pos [MultiReq.mkCmd 1 3; MultiReq.mkCmd 2 1; MultiReq.mkCmd 3 2] /\
+  let s := MultiReq.run MultiReq.LastReply (MultiReq.init [MultiReq.mkCmd 1 3; MultiReq.mkCmd 2 1; MultiReq.mkCmd 3 2])
+             [MultiReq.EStart; MultiReq.EReply 1; MultiReq.EStart; MultiReq.EReply 1; MultiReq.EReply 0; MultiReq.EStart;
+              MultiReq.EReply 0; MultiReq.EStart; MultiReq.EReply 1; MultiReq.EReply 0]%nat in
+  MultiReq.queue s = [] /\ MultiReq.ndone s = 3%nat
+  /\ MultiReq.sent s = [(0,0);(0,1);(0,2);(1,0);(2,0);(2,1)]%nat.
+Proof. split; [repeat constructor | exact MultiReqProofs.multi_example]. Qed.
